@@ -273,6 +273,7 @@ class Alphabet:
         cmd('cmd[]', N.x, '[')
         cmd('cmd[]{}', N.x, '[{')
         cmd('cmd{}{}', N.x, '{{')
+        cmd('cmd[][]', N.x, '[[')
         cmd('section{}', 'section', '{')
         cmd('section[]{}', 'section', '[{')
         cmd('textbf{}', 'textbf', '{')
@@ -453,8 +454,8 @@ def hole_ok(hctx, f, headinfo, i, nholes):
 # ---------------------------------------------------------------------------------------------
 # the two standard alphabets (DESIGN section 3)
 
-FULL_CONT = {'cmd{}', 'cmd[]', 'cmd[]{}', 'cmd{}{}', 'section{}', 'section[]{}', 'textbf{}', 'label{}', 'group',
-             'env', 'env{}', 'env[]{}', 'item', 'item[]', 'm$', 'm$$', 'm(', 'm[', 'meq', 'verb', 'defn'}
+FULL_CONT = {'cmd{}', 'cmd[]', 'cmd[]{}', 'cmd{}{}', 'cmd[][]', 'section{}', 'section[]{}', 'textbf{}', 'group',
+             'env', 'env{}', 'item', 'item[]', 'm$', 'm$$', 'm(', 'm[', 'meq', 'verb', 'defn'}
 CORE_CONT = {'cmd{}', 'cmd[]', 'group', 'env', 'item', 'm$', 'm[', 'meq'}
 
 
